@@ -29,6 +29,11 @@ UNIT = dict(
         dict(file=MSG_CPP, name='Message::createKey', sig='const MasterSymbolString& master', nth=0, cname='Message_createKey_master', self=None),
         dict(file=MSG_CPP, name='Message::checkId', sig='const MasterSymbolString& master', cname='Message_checkId', self='struct Message'),
         dict(file=MSG_CPP, name='MessageMap::find', sig='const MasterSymbolString& master', cname='MM_find', self='struct MessageMap'),
+        # the id length bookkeeping at the end of MessageMap::add (fragment, rule R16): establishes the invariant the probe loop of find relies on
+        dict(file=MSG_CPP, name='MessageMap::add', cname='MM_add_tail', self='struct MessageMap', ret='result_t', params_c=['struct Message* message', 'uint64_t key'],
+             fragment=dict(start=r'size_t idLength = message->getIdLength\(\);', end=r'\}\s*$'),
+             pre_subs=[(r'm_messagesByKey\[key\]\.push_back\(message\);', 'env_store_by_key(self, key, message);', 1)],
+             cfg=dict(methods={'getIdLength': 'Message_getIdLength', 'getDstAddress': 'Message_getDstAddress'})),
     ],
     runs=[],
 )
@@ -43,3 +48,4 @@ R('key_def', 'h_key_def', None, unwind=12, defines=['SS_CAP=32'], cost=10)
 R('key_master', 'h_key_master', None, unwind=10, defines=['SS_CAP=32'], cost=10)
 R('key_lemmas', 'h_key_lemmas', None, unwind=10, defines=['SS_CAP=32'], cost=30)
 R('find', 'h_find', None, unwind=10, defines=['SS_CAP=32'], cost=120, timeout=1500)
+R('add_bookkeeping', 'h_add_bookkeeping', None, unwind=10, defines=['SS_CAP=32'], cost=10)
